@@ -208,8 +208,9 @@ func sortJSONArray(input gjson.Result, output []byte) []byte {
 // inputJSON must be the raw JSON bytes that gjson.Result points to.
 func sortJSONObject(input gjson.Result, output []byte) []byte {
 	type entry struct {
-		key   string // The parsed key string
-		value gjson.Result
+		key    string // The parsed key string
+		rawKey string // The raw, unparsed key JSON string
+		value  gjson.Result
 	}
 
 	// Try to stay on the stack here if we can.
@@ -220,8 +221,9 @@ func sortJSONObject(input gjson.Result, output []byte) []byte {
 	// that we can sort
 	input.ForEach(func(key, value gjson.Result) bool {
 		entries = append(entries, entry{
-			key:   key.String(),
-			value: value,
+			key:    key.String(),
+			rawKey: key.Raw,
+			value:  value,
 		})
 		return true // keep iterating
 	})
@@ -239,9 +241,8 @@ func sortJSONObject(input gjson.Result, output []byte) []byte {
 		sep = ','
 
 		// Append the raw unparsed JSON key, *not* the parsed key
-		output = append(output, '"')
-		output = append(output, entry.key...)
-		output = append(output, '"', ':')
+		output = append(output, entry.rawKey...)
+		output = append(output, ':')
 		output = sortJSONValue(entry.value, output)
 	}
 	if sep == '{' {
